@@ -54,9 +54,8 @@ def main():
     s = block(s, "fixed", "\n".join("* " + l[len("fixed: "):] for l in kf["fixed"]) or "(none)")
     s = block(s, "findings", "\n".join("* %s `%s`: %s" % (f["property"], f["key"], f["what"]) for f in kf["findings"]) or "(none)")
     res = {}
-    rp = os.path.join(VERIF, "seeded", "RESULTS.json")
-    if os.path.exists(rp):
-        res = json.load(open(rp))
+    for rp in glob.glob(os.path.join(VERIF, "seeded", "*", "result.json")):
+        res[os.path.basename(os.path.dirname(rp))] = json.load(open(rp))
     lines = []
     for d in sorted(glob.glob(os.path.join(VERIF, "seeded", "*", "meta.json"))):
         sid = os.path.basename(os.path.dirname(d))
